@@ -28,6 +28,16 @@ CHECKS = {
     technique='runtime monitoring: exhaustive line-class sequences through the real loader with a recording mock OpenPGP env vs independent cleartext-framing recogniser (FSM state x class pairs observed via sys.monitoring), plus differential against real gpg --decrypt on mutated gpg-signed Manifests',
     text='(a) every sequence of up to 5 (quick) / 7 (thorough) lines over ten line classes, with and without final newline, verification on (mock) and off, is loaded by the real ManifestFile.load; entries, exception class and the exact text handed to verification are compared with an independent recogniser of RFC 4880 section 7 framing. (b) seeded textual mutants of Manifests genuinely signed by gpg: whenever the verified load succeeds, entries must equal what gpg --decrypt authenticated.',
     note='Trusted: vf/model/cleartext.py, vf/model/mtext.py, GnuPG 2.2 as the authenticating implementation. Armor-like lines inside the armor-header section and an END line without final newline are unconstrained (U13).'),
+ 'C05': dict(
+    category='exploration', design='3 C05',
+    technique='runtime monitoring: bounded-exhaustive gpg status sequences through the real verifier with a fake backend process vs independent acceptance predicate; real gpg key-state x owner-trust matrix, single-character mutation of signed text, audit-hook SpawnAudit + keyring snapshots for -K isolation, CLI flag matrix',
+    text='Every sequence of up to 4 (quick) / 5 (thorough) real gpg status lines x exit status is fed to the real verify_file through ManifestFile.load (long-lived and fresh instances) with subprocess replaced inside gemato.openpgp; acceptance must satisfy the necessity predicate always and sufficiency for single-signature reports. Real gpg: eight key states x five owner-trust levels with explicit monotonicity, every position of the signed body mutated, verify -K under three user keyrings with every gpg spawn audited and the user keyring snapshotted, and the -s/-P/-K matrix.',
+    note='Trusted: the acceptance predicate in vf/checks/c05.py, GnuPG 2.2.40, vendored test keys. Network key refresh is out of reach offline (all runs use -R). PGPy backend not installed.'),
+ 'C15': dict(
+    category='exploration', design='3 C15',
+    technique='runtime monitoring: contract on find_top_level_manifest comparing every call with an independent upward walk, over exhaustive short chains and seeded deep ones, incl. tmpfs device boundaries in a private mount namespace',
+    text='All chains of depth <= 2 (quick) / 3 (thorough) over per-level Manifest kind x IGNORE kind, from every start depth, absolute and relative start, both flags, are materialised on disk; a contract compares each real call with an independent model. Device boundaries are real: a tmpfs mounted at a chain level inside unshare -m (fallback /dev/shm, recorded in the evidence).',
+    note='Trusted: vf/model/findtop.py and the independent Manifest reader. Start directories reached via symlinks and syntactically invalid Manifests on the chain are not generated.'),
 }
 
 def main():
